@@ -22,6 +22,49 @@ RAD = Poly.atom("self._radius")
 CLASSES_3D = ("ConvexPolyhedron", "Polyhedron", "Sphere", "Ellipsoid", "ConvexSpheropolyhedron")
 
 
+def _axis_of(expr, fn_node):
+    """coordinate axis ('x'|'y'|'z') an expression is a function of: the constant last index of every coordinate
+    subscript (`v[..., 0]`, `p[:, 1]`) reachable through local assignments; None unless they all agree."""
+    import ast as _ast
+    assigns = {}
+    for n in _ast.walk(fn_node):
+        if isinstance(n, _ast.Assign) and len(n.targets) == 1 and isinstance(n.targets[0], _ast.Name):
+            assigns.setdefault(n.targets[0].id, n.value)
+    seen = set()
+    consts = set()
+
+    def walk(e, depth=0):
+        if depth > 6:
+            return
+        direct = False
+        for n in _ast.walk(e):
+            if isinstance(n, _ast.Subscript):
+                sl = n.slice
+                last = sl.elts[-1] if isinstance(sl, _ast.Tuple) and sl.elts else sl
+                if isinstance(last, _ast.Constant) and isinstance(last.value, int) and not isinstance(last.value, bool) \
+                        and isinstance(sl, _ast.Tuple):
+                    direct = True
+        for n in _ast.walk(e):
+            if direct and isinstance(n, _ast.Name):
+                continue
+            if isinstance(n, _ast.Subscript):
+                sl = n.slice
+                last = sl.elts[-1] if isinstance(sl, _ast.Tuple) and sl.elts else sl
+                if isinstance(last, _ast.Constant) and isinstance(last.value, int) and not isinstance(last.value, bool) \
+                        and isinstance(sl, _ast.Tuple):
+                    consts.add(last.value)
+            elif isinstance(n, _ast.Name) and n.id in assigns and n.id not in seen:
+                seen.add(n.id)
+                v = assigns[n.id]
+                # only follow names defined by coordinate slices / arithmetic on them
+                if any(isinstance(x, _ast.Subscript) for x in _ast.walk(v)) and not any(isinstance(x, _ast.Call) for x in _ast.walk(v)):
+                    walk(v, depth + 1)
+    walk(expr)
+    if len(consts) == 1 and next(iter(consts)) in (0, 1, 2):
+        return "xyz"[next(iter(consts))]
+    return None
+
+
 def run(index, tier="quick", seed=0) -> Result:
     res = Result("C05", EXPLANATION)
     n = 0
@@ -49,6 +92,37 @@ def run(index, tier="quick", seed=0) -> Result:
         res.bad("IN-5", "ConvexSpheropolyhedron.is_inside", f"{fn.file}:{fn.lineno}",
                 f"rounded region not covered: comparisons with the rounding radius found for {kinds} "
                 f"(need face extrusion [plane distance], edge cylinders and vertex caps [norms])")
+    # IN-5b every (point, face) candidate pair of the slab mask reaches the rounded-region test
+    cf = [e for e in r["events"] if e.type == "enter" and not e.entry and e.callee.name == "check_face"]
+    if not cf:
+        res.not_in_fragment.append("IN-5b: rounded-region helper check_face not found")
+    else:
+        okpairs = all(len(e.argvals) >= 2 and all("where-index" in a.tags for a in e.argvals[:2]) for e in cf)
+        if okpairs:
+            res.ok("IN-5b", "ConvexSpheropolyhedron.is_inside:candidates")
+        else:
+            src = sorted({str(t) for e in cf for a in e.argvals[:2] for t in a.tags if isinstance(t, tuple) and t[0] == "index-from"})
+            res.bad("IN-5b", "ConvexSpheropolyhedron.is_inside:candidates", cf[0].where(), "the rounded region is not tested for every (point, face) pair of the slab mask "
+                    f"(np.where of the 2-D mask); candidates come from {src or 'another selection'}: the face with the largest plane distance "
+                    "need not contain the nearest edge or vertex")
+    # IN-10 lexicographic tie-breaking uses one coordinate order (x, then y, then z) everywhere
+    import ast as _ast, re as _re
+    pfn = index.cls("Polyhedron").lookup("is_inside")
+    bad_order = None
+    ncalls = 0
+    for n_ in _ast.walk(pfn.node):
+        if isinstance(n_, _ast.Call) and isinstance(n_.func, _ast.Name) and n_.func.id == "sign_or" and len(n_.args) == 3:
+            letters = [_axis_of(a, pfn.node) for a in n_.args]
+            if None not in letters:
+                ncalls += 1
+                if letters != ["x", "y", "z"]:
+                    bad_order = (n_, letters)
+    if bad_order:
+        res.bad("IN-10", "Polyhedron.is_inside:vertex-order:" + "".join(bad_order[1]), f"{pfn.file}:{bad_order[0].lineno}",
+                f"vertex sign tie-break uses the coordinate order {bad_order[1]}; the edge and triangle tie-breaks use the projections xy, xz, yz, "
+                "i.e. lexicographic (x, y, z): points sharing a coordinate with a vertex are misclassified")
+    elif ncalls:
+        res.ok("IN-10", "Polyhedron.is_inside:vertex-order")
     from ..parallel import report as _copy1
     _copy1(res, index, lambda f: f['top'] in ('is_inside', '_point_plane_distances') and f['cls'] in ('Polyhedron', 'ConvexPolyhedron', 'Sphere', 'Ellipsoid', 'ConvexSpheropolyhedron'))
     return res
